@@ -171,11 +171,19 @@ func runC18Migrate(t *vs.Tape, cfg map[string]string) (res vs.Result) {
 	}
 	ids := []string{"A", "B", "ünï", "A-1"}
 	hashes := topoHashes()
+	idStyle := t.Intn(3, "id.style")
 	var entries []detection.Signature
 	for i := 0; i < n; i++ {
 		s := simsig.Rich(t, i, ids, hashes)
 		if large && i%3 != 0 {
-			s.ID = fmt.Sprintf("U%05d", i)
+			switch idStyle {
+			case 0:
+				s.ID = fmt.Sprintf("U%05d", i) // fixed width
+			case 1:
+				s.ID = fmt.Sprintf("S%d", i) // un-padded counter: many IDs are proper prefixes of others
+			default:
+				s.ID = fmt.Sprintf("SFW-MAL-%d", i/2+1) + strings.Repeat("x", i%2) // prefixes and repeated IDs
+			}
 		}
 		entries = append(entries, s)
 	}
